@@ -14,18 +14,29 @@ EXPLAINED = {
 
 class C02(Property):
     id = "C02"
-    lean_module = "RosuModel.Props.C02"
+    lean_module = "RosuModel.Props.C02Codec"   # imports Props/C02.lean; both files are in namespace Rosu.C02
     namespace = "Rosu.C02"
     design_ref = "5.2"
     required_theorems = ["trim_cons_space", "kvSplit_kvLine", "kv_line_roundtrip", "int_display_parse", "int_display_clean",
                          "metadata_block_roundtrip", "colours_block_roundtrip", "colours_block_roundtrip_decoded",
                          "editor_block_roundtrip", "difficulty_block_roundtrip", "general_block_roundtrip", "events_block_roundtrip",
-                         "laws_satisfiable", "records_roundtrip", "circle_rt", "spinner_rt", "hold_rt", "samples_bank_info_rt", "samples_rt"]
+                         "laws_satisfiable", "records_roundtrip", "circle_rt", "spinner_rt", "hold_rt", "samples_bank_info_rt", "samples_rt",
+                         "parseBits_printBits_f64", "parseBits_printBits_f32", "parseBits_printBits", "printBits_clean", "printBits_ne_nil",
+                         "parseDecimal_renderDecimal", "roundRat_of_inInterval", "shortestDigits_inInterval",
+                         "codecLaws_float", "codecLaws_float32", "editor_block_roundtrip_ieee", "difficulty_block_roundtrip_ieee",
+                         "events_block_roundtrip_ieee"]
     partial_theorems = {
         "editor_block_roundtrip / difficulty_block_roundtrip / general_block_roundtrip / events_block_roundtrip / records_roundtrip":
             "law-dependent: proved for every number codec satisfying CodecLaws (parse(print x) = x on the representable values; printed numbers are non-empty and made of "
             "number characters only) and, for AudioLeadIn, IntPrintLaw (integral values print like integers). The laws are shown satisfiable by the toy codec of Lemmas/ToyCodec.lean "
-            "(laws_satisfiable); that Rust's Display/FromStr for f32/f64 satisfy them is not proved (recorded assumption, exercised by lib/codecgen.py). metadata_block_roundtrip and "
+            "(laws_satisfiable) AND are now theorems for the model's real IEEE codec at the bit level (Props/C02Codec.lean, Lemmas/FloatCodecLaws*.lean): parseBits (printBits b) = some b "
+            "for every non-NaN binary32 / binary64 bit pattern (parseBits_printBits_f32 / _f64: signs, zeros, infinities, subnormals, normals; via roundRat_of_inInterval — correct rounding, "
+            "ties to even — and shortestDigits_inInterval), printBits_clean, printBits_ne_nil. For the driver's Float / Float32 instances this gives CodecLaws on the non-NaN values "
+            "(codecLaws_float / codecLaws_float32, and editor_ / difficulty_ / events_block_roundtrip_ieee) from ONE hypothesis each, FloatBitsLaw / Float32BitsLaw "
+            "(ofBits (toBits x) = x and toBits x is not a NaN pattern, for non-NaN x): Lean's Float is opaque to the kernel, so this statement about the runtime's bit casts cannot be proved; "
+            "it is exercised by the codec differential. Still NOT proved: IntPrintLaw for the IEEE instance (AudioLeadIn); that shortestDigits returns the shortest / closest digits and never "
+            "reaches its exact-expansion fallback (irrelevant for the round trip, relevant only for agreement with Rust); and that Rust's own Display/FromStr equal printBits/parseBits "
+            "(recorded assumption, compared on >10^6 values per run by lib/codecgen.py). metadata_block_roundtrip and "
             "colours_block_roundtrip need no law (integers: int_display_parse is proved of the model's own i32/u32/u8 codec)",
         "records_roundtrip": "file level for the six record sections only (format version, general on the preserved view, editor, metadata with positive ids, difficulty, background/breaks, "
             "colours with alpha 255): the re-decoded Beatmap has these fields equal to the original's. It assumes of the [TimingPoints] and [HitObjects] blocks only their shape "
@@ -46,7 +57,8 @@ class C02(Property):
                   "line by line and gives the section back on the preserved view: all ten metadata fields incl. positive ids; combo and custom colours with alpha 255; editor; difficulty "
                   "inside the clamps; general with the encoder's SampleSet / CountdownOffset / SpecialStyle / flag rules; background file and breaks), and file level for those sections "
                   "(records_roundtrip: encode, UTF-8 bytes, reader, framing, Beatmap decoder, finalisation), and line level for circles, spinners and hold notes (circle_rt, spinner_rt, "
-                  "hold_rt, samples_bank_info_rt, samples_rt). Everything that prints floats is proved for every lawful number codec. Sliders and timing points are not yet theorems. Model of decoder and encoder compared three ways on every case (decoded map, encoded text character for character, re-decoded map); "
+                  "hold_rt, samples_bank_info_rt, samples_rt). Everything that prints floats is proved for every lawful number codec; the model's own IEEE codec is proved lawful at the bit level "
+                  "(parse(print b) = b for every non-NaN f32/f64 pattern; printed numbers clean and non-empty) and the Float/Float32 instances are lawful given one bit-cast hypothesis about Lean's opaque runtime floats. Sliders and timing points are not yet theorems. Model of decoder and encoder compared three ways on every case (decoded map, encoded text character for character, re-decoded map); "
                   "the property itself — preserved(decode(encode(decode x))) = preserved(decode x) for chronological inputs — is evaluated on the real code over the structured generator "
                   "(all sections, four modes, versions 3..128, all object kinds, multi-segment paths, same-time timing groups, hostile-but-accepted numerics), field-level mutations of the "
                   "bundled maps and the bundled maps themselves.")
@@ -54,6 +66,8 @@ class C02(Property):
     trusted_base = [
         "Lean 4.33.0 kernel; axioms ⊆ {propext, Classical.choice, Quot.sound} per #print axioms",
         "hand-written decode + encode models tied to /repo by the `rt` differential of this run",
+        "number codec: the model's printBits/parseBits are proved mutually inverse on non-NaN patterns; that they equal Rust's Display/FromStr is tested (lib/codecgen.py), not proved; "
+        "FloatBitsLaw / Float32BitsLaw (bit casts of Lean's runtime Float) is a hypothesis of codecLaws_float(32), not provable in the kernel",
     ]
     assumptions = ["domain check (chronological object and accepted timing lines) is made on the implementation's own pre-sort objects and parser log",
                    "slider velocity (carried only through 100/(100/sv)) may drift by ≤ 4 ulp; reported in the OK line, larger drift fails"]
